@@ -30,6 +30,8 @@ fsc_ctx = dict(cls='fsc', members=[], methods=[],
 fss_ctx = dict(cls='fused_stop_source', members=['callbacks_'], methods=[],
                pre=[(r'callbacks_\.emplace\(\*this, std::move\(tokens\)\.\.\.\);', 'if (fss_optional_emplace(&callbacks_, VF_AS_SOURCE(this))) return;'),
                     (r'callbacks_\.reset\(\);', 'fss_optional_reset(&callbacks_);'),
+                    # inherited inplace_stop_source::stop_requested() asked of the fused source itself (variant forms only; the flag may be set at any time)
+                    (r'(?<![\w.>])stop_requested\(\)', 'EV_fss_stop_requested(this)'),
                     (r'^unifex::inplace_stop_source$', '1'), (r'^std::optional<fused_callback_type>$', '1')])
 tok_ctx = dict(cls='inplace_stop_token', members=['source_'], methods=[], obj_methods={'stop_requested': 'EV_source_stop_requested'},
                pre=[(r'^source_\(nullptr\)$', 'source_ = nullptr')])
